@@ -23,7 +23,7 @@ def run(chk):
     E.replay_all(chk, recs, 'C15')
     # string assignments including the empty string, three deep (the string is read and set again after it was emptied)
     recs3 = E.explore(chk, 'strings3', ['\\begin{c}x\\end{c} \\t{T}'], 3, ['set_string', 'append', 'delete', 'args_append'], names=('zz',), strs=('', 'u'),
-                      materials=(('',), ('X',)))
+                      materials=(('',), ('X',), ('', 1)))
     E.replay_all(chk, recs3, 'C15')
     for r in recs[:1] + recs[-2:]:
         chk.sample({'source': from_atoms(r['i']), 'history': [E.show_op(e['op']) for e in r['h']], 'text_after': from_atoms(r['h'][-1]['obs']['t'])})
